@@ -694,4 +694,149 @@ example : via (table "default".toList formEx) [] (labelSrc elemEx) (s "long") "f
   · rw [key "fr".toList (by decide)]; decide
   · rw [key "de".toList (by decide)]; decide
 
+/-! ### the same derivation for hints (generic in the display element) -/
+
+def isAt (id form : Str) (x : Entry) : Bool := decide (x.id = id ∧ x.form = form)
+
+theorem filter_other_elem_at (dl : Str) (e y : Elem) (d : String) (form : Str) (hd : d ∈ Itext.displays)
+    (hp : y.path ≠ e.path) :
+    (getTranslations dl y).filter (isAt (Itext.path e.path d) form) = [] := by
+  rw [List.filter_eq_nil_iff]
+  intro x hx hP
+  obtain ⟨d', hd', hid⟩ := getTranslations_ids dl y hx
+  simp only [isAt, decide_eq_true_eq] at hP
+  exact hp (Itext.path_inj hd' hd (hid ▸ hP.1)).1
+
+theorem filter_nil_of_display (e : Elem) (d d' : String) (form : Str) (hd : d ∈ Itext.displays) (hd' : d' ∈ Itext.displays)
+    (hne : d' ≠ d) (l : List Entry) (hl : ∀ x ∈ l, x.id = Itext.path e.path d') :
+    l.filter (isAt (Itext.path e.path d) form) = [] := by
+  rw [List.filter_eq_nil_iff]
+  intro x hx hP
+  simp only [isAt, decide_eq_true_eq] at hP
+  exact hne (Itext.path_inj hd' hd ((hl x hx) ▸ hP.1)).2
+
+theorem msgsOf_ids (dl : Str) (e : Elem) {x : Entry} (hx : x ∈ msgsOf dl e) :
+    ∃ d ∈ ["jr:constraintMsg", "jr:requiredMsg", "jr:noAppErrorString"], x.id = Itext.path e.path d := by
+  unfold msgsOf at hx
+  cases hb : e.bind with
+  | none => simp [hb] at hx
+  | str t => simp [hb] at hx
+  | dict b =>
+    simp only [hb] at hx
+    split at hx
+    · simp at hx
+    · simp only [List.mem_flatMap] at hx
+      obtain ⟨k, hk, hxk⟩ := hx
+      have hid := (msgEntries_id_form hxk).1
+      simp only [msgKeys, List.mem_cons, List.mem_nil_iff, or_false] at hk
+      rcases hk with rfl | rfl | rfl
+      · exact ⟨"jr:constraintMsg", by simp, by rw [hid]; exact elemId_eq _ _⟩
+      · exact ⟨"jr:requiredMsg", by simp, by rw [hid]; exact elemId_eq _ _⟩
+      · exact ⟨"jr:noAppErrorString", by simp, by rw [hid]; exact elemId_eq _ _⟩
+
+theorem filter_msgs_nil (dl : Str) (e : Elem) (d : String) (form : Str) (hd : d ∈ Itext.displays)
+    (hnm : d = "label" ∨ d = "hint") :
+    (msgsOf dl e).filter (isAt (Itext.path e.path d) form) = [] := by
+  rw [List.filter_eq_nil_iff]
+  intro x hx hP
+  obtain ⟨d', hd', hid⟩ := msgsOf_ids dl e hx
+  simp only [isAt, decide_eq_true_eq] at hP
+  have hd'' : d' ∈ Itext.displays := by
+    simp only [List.mem_cons, List.mem_nil_iff, or_false] at hd'
+    rcases hd' with rfl | rfl | rfl <;> decide
+  have := (Itext.path_inj hd'' hd (hid ▸ hP.1)).2
+  simp only [List.mem_cons, List.mem_nil_iff, or_false] at hd'
+  rcases hnm with rfl | rfl <;> rcases hd' with rfl | rfl | rfl <;> exact absurd this (by decide)
+
+/-- the element's own entries under its hint id: the plain values are the hint dict, the guidance values the guidance dict -/
+theorem filter_own_hint (dl : Str) (e : Elem) (m : Kvs) (hh : hintV dl e = .dict m) :
+    (getTranslations dl e).filter (isAt (Itext.path e.path "hint") (s "long")) =
+      dictEntries (e.path ++ s ":hint") (s "long") (.dict m) := by
+  have hidl : e.path ++ s ":label" = Itext.path e.path "label" := by simp [Itext.path, s]
+  have hidh : e.path ++ s ":hint" = Itext.path e.path "hint" := by simp [Itext.path, s]
+  unfold getTranslations
+  simp only [hh, List.filter_append]
+  rw [filter_msgs_nil dl e "hint" _ (by decide) (Or.inr rfl),
+    filter_nil_of_display e "hint" "label" _ (by decide) (by decide) (by decide) _
+      (fun x hx => by rw [(dictEntries_id_form hx).1, hidl])]
+  have h2 : (dictEntries (e.path ++ s ":hint") (s "long") (.dict m)).filter (isAt (Itext.path e.path "hint") (s "long")) =
+      dictEntries (e.path ++ s ":hint") (s "long") (.dict m) := by
+    rw [List.filter_eq_self]
+    intro x hx
+    have := dictEntries_id_form hx
+    simp [isAt, this.1, this.2, hidh]
+  have h3 : (dictEntries (e.path ++ s ":hint") (s "guidance") (guidanceV dl e)).filter
+      (isAt (Itext.path e.path "hint") (s "long")) = [] := by
+    rw [List.filter_eq_nil_iff]
+    intro x hx hP
+    simp only [isAt, decide_eq_true_eq] at hP
+    have := (dictEntries_id_form hx).2
+    rw [this] at hP
+    exact absurd hP.2 (by decide)
+  rw [h2, h3]; simp
+
+theorem flatMap_filter_own_at (dl : Str) (e : Elem) (d : String) (form : Str) (R : List Entry) (hd : d ∈ Itext.displays)
+    (hown : (getTranslations dl e).filter (isAt (Itext.path e.path d) form) = R) : ∀ (es : List Elem),
+    e ∈ es → (es.map (·.path)).Nodup →
+    (es.flatMap (getTranslations dl)).filter (isAt (Itext.path e.path d) form) = R
+  | [], h, _ => by simp at h
+  | x :: xs, hmem, hnd => by
+    simp only [List.map_cons, List.nodup_cons] at hnd
+    simp only [List.flatMap_cons, List.filter_append]
+    by_cases hp : x.path = e.path
+    · have hnotin : e ∉ xs := fun h => hnd.1 (hp ▸ List.mem_map.mpr ⟨e, h, rfl⟩)
+      have hxe : e = x := by
+        rcases List.mem_cons.mp hmem with h | h
+        · exact h
+        · exact absurd h hnotin
+      subst hxe
+      rw [hown, filter_flatMap_nil _ _ xs fun y hy =>
+        filter_other_elem_at dl e y d form hd fun h => hnd.1 (h ▸ List.mem_map.mpr ⟨y, hy, rfl⟩)]
+      simp
+    · have hexs : e ∈ xs := by
+        rcases List.mem_cons.mp hmem with h | h
+        · exact absurd (h ▸ rfl) hp
+        · exact h
+      rw [filter_other_elem_at dl e x d form hd hp, flatMap_filter_own_at dl e d form R hd hown xs hexs hnd.2]
+      simp
+
+/-- **`OwnEntries` for a translated hint, from path distinctness** -/
+theorem ownEntries_hint (dl : Str) (f : Form) (e : Elem) (m : Kvs) (he : e ∈ f.elems) (hh : hintV dl e = .dict m)
+    (hpaths : (f.elems.map (·.path)).Nodup)
+    (hmedia : ∀ x ∈ f.elems.flatMap (mediaEntries dl), x.form ≠ s "long") :
+    OwnEntries (table dl f) (e.path ++ s ":hint") (s "long") m := by
+  have hidh : e.path ++ s ":hint" = Itext.path e.path "hint" := by simp [Itext.path, s]
+  unfold OwnEntries table
+  have hP : (fun x : Entry => decide (x.id = e.path ++ s ":hint" ∧ x.form = s "long")) =
+      isAt (Itext.path e.path "hint") (s "long") := by rw [← hidh]; rfl
+  rw [hP, List.filter_append, List.filter_append,
+    flatMap_filter_own_at dl e "hint" _ _ (by decide) (filter_own_hint dl e m hh) f.elems he hpaths]
+  have hch : ((f.choices.filter fun c => (itextLists f).contains c.list).flatMap (choiceEntries dl)).filter
+      (isAt (Itext.path e.path "hint") (s "long")) = [] := by
+    apply filter_flatMap_nil
+    intro c _
+    rw [List.filter_eq_nil_iff]
+    intro x hx hP
+    simp only [isAt, decide_eq_true_eq] at hP
+    have h1 : Itext.choiceId c.list c.idx = Itext.path e.path "hint" := by
+      rw [← choiceId_eq, ← choiceEntries_id hx, hP.1]
+    exact Itext.choiceId_ne_path _ _ _ (by decide) h1
+  have hmd : (f.elems.flatMap (mediaEntries dl)).filter (isAt (Itext.path e.path "hint") (s "long")) = [] := by
+    rw [List.filter_eq_nil_iff]
+    intro x hx hP
+    simp only [isAt, decide_eq_true_eq] at hP
+    exact hmedia x hx hP.2
+  rw [hch, hmd]
+  simp
+
+/-- **effective hint on whole forms**: a translated hint shows per language the text filed under it, else `-`, in any form
+with pairwise distinct xpaths -/
+theorem effective_hint_form (dl : Str) (f : Form) (padIds : List Str) (e : Elem) (m : Kvs) (lang : Str)
+    (he : e ∈ f.elems) (hh : e.hint = .dict m) (hpaths : (f.elems.map (·.path)).Nodup)
+    (hmedia : ∀ x ∈ f.elems.flatMap (mediaEntries dl), x.form ≠ s "long")
+    (hne : m ≠ .nil) (hfl : FlatD m) (hnd : m.keys.Nodup) (hlang : lang ≠ []) :
+    via (table dl f) padIds (hintSrc e) (s "long") lang = some ((readLang dl e.hint lang).getD (s "-")) :=
+  effective_hint_itext dl _ padIds e lang m hh
+    (ownEntries_hint dl f e m he (by simp [hintV, hh]) hpaths hmedia) hne hfl hnd hlang
+
 end Pyxv.C08
